@@ -379,7 +379,19 @@ def fit_class(metric, X):
 def run(ctx):
     ctx.check_proofs(["prop/P_C13.v"])
     # translation tie: Gallina regenerated from the current umap/sparse.py; link theorems src_f = (model value, ok = true) re-checked
-    link.check(ctx, "sparse", LINKED, NOT_TRANSLATED)
+    lres = link.check(ctx, "sparse", LINKED, NOT_TRANSLATED)
+    # capstone corollaries (coq/link/K_sparse.v): the property statement between the two translated sources -- sparse metric of the current
+    # sparse.py on canonical rows = dense metric of the current distances.py on the densified vectors (euclidean, manhattan, chebyshev,
+    # hamming, jaccard)
+    for thm in ("C13_src_euclidean", "C13_src_manhattan", "C13_src_chebyshev", "C13_src_hamming", "C13_src_jaccard"):
+        ob = "link:sparse:" + thm
+        ctx.obligations.append(ob)
+        bad = [a for a in lres.axioms.get(thm, []) if a not in link.coqrun.ALLOWED_AXIOMS and not ctx._primitive(a)]
+        if lres.theorems.get(thm) is True and not bad:
+            ctx.discharged.append(ob)
+        else:
+            ctx.broken.append("link[sparse]: corollary %s (translated sparse source = translated dense source on densified vectors) %s"
+                              % (thm, ("uses axioms %s" % bad) if bad else (lres.theorems.get(thm) or "is missing")))
     rng = ctx.rng
     npr = np.random.RandomState(rng.randrange(2 ** 31))
     # (1) registries of the current source
